@@ -75,6 +75,8 @@ def shrink(x, maxlist=24):
 
 def matches(exp, out):
     """Python twin of Octets!Matches."""
+    if isinstance(exp, dict) and "any" in exp:
+        return True
     if isinstance(exp, dict) and "anyof" in exp:
         return any(_match_plain(x, out) for x in exp["anyof"])
     return _match_plain(exp, out)
